@@ -294,7 +294,7 @@ package tree
 // rollback: the frontier is rebuilt first). Only the transaction-level effects are stated here.
 //@ func (t *AppendOnlyTree) AddLeaf (t, tx, blockNum, blockPosition, leaf)
 //@   behavior any
-//@   props C07 C08 C14
+//@   props C01 C07 C08 C14
 //@   requires t != nil && t.Tree != nil && tx != nil && len(t.zeroHashes) == 33
 //@   requires rhtOK(rhtHas(t.Tree), rhtL(t.Tree), rhtR(t.Tree))
 //@   modifies t.lastIndex, t.lastLeftCache, solBranch(t), solCount(t), rootHas(t.Tree), rootHash(t.Tree), rootBlock(t.Tree), rootPos(t.Tree), rootLastIdx(t.Tree), rhtHas(t.Tree), rhtL(t.Tree), rhtR(t.Tree), undoCnt(tx), leafCalls, lastLeafErr, lastLeafIdx, stmtFail
